@@ -193,12 +193,15 @@ def configs(tier):
     for dw in (1, 2):
         # ---- part 1: routing --------------------------------------------------------------------
         shapes = [(1,), (2,), (3,), (1, 1), (1, 2), (2, 1), (2, 2), (1, 1, 2), (2, 1, 1), (3, 1), (1, 3),
-                  (1, 2, 1, 1), (2, 2, 1, 1), (1, 2, 3)]
+                  (1, 2, 1, 1), (2, 2, 1, 1), (1, 2, 3), (1, 1, 1, 1, 1), (1, 1, 1, 1, 1, 1), (1, 1, 2, 1, 1, 1, 1),
+                  (1, 1, 1, 1, 1, 1, 1, 1)]
         for aws in shapes:
             need = sum(1 << a for a in aws) * 2
             aw_root = max(3, (need - 1).bit_length())
             if aw_root > 5:
                 aw_root = 5
+            if len(aws) >= 5:
+                aw_root = 6 if len(aws) >= 7 else 5
             for align in (0, 1, 2) if not quick else (0, 2):
                 # implicit placement, anonymous and named
                 out.append(dict(part=1, dw=dw, tree=dec(aw_root, [sub(stub(a), name=(None if i % 2 else f"s{i}"))
